@@ -153,3 +153,25 @@ for _pid, (_t, _x) in _ADD2.items():
     if _pid in CLAIMED:
         t0, x0, r0 = CLAIMED[_pid]
         CLAIMED[_pid] = (t0 + '; ' + _t, (x0 + ' ' + _x).strip(), r0)
+
+# round 11
+_ADD3 = {
+    'C01': ('concrete multi-scale scenarios for the inside test; DTYPE-FLOW on the four cell setters', 'Also decided: inside/outside does not depend on the unit of length; whole-number parameters never give an integer cell array.'),
+    'C03': ('build scenarios from growing storage; load from an open stream with a read position', ''),
+    'C05': ('generic SHARED-STATE pass (no in-place write into module-level or class-level mutable state)', 'Also decided: one call leaves nothing behind in module-level arrays for the next.'),
+    'C06': ('index forms by evaluation (atom 0, boolean lists and tuples)', ''),
+    'C14': ('edge planes apart by round-off in exact rationals; four-index planes in the head of the basis search; setter-then-fault chain on concrete atoms', ''),
+    'C15': ('site search under other working units', 'Also decided: the default tolerance is a length in working units.'),
+    'C16': ('angles of cell vectors at four length scales', 'Also decided: angles do not depend on the unit of length.'),
+    'C17': ('per-atom reference vectors as one regular array in the solve_G model', 'Also decided: every atom is solved against its own reference vectors.'),
+    'C18': ('evaluation of the SDVPN constructor on a Volterra model with a non-symmetric rational rotation; each energy term under its own finite-difference option; delta() evaluated like E_gsf(); caller arrays compared after the call',
+            'Also decided: energy coefficients, Burgers vector and transform enter the [m, n, xi] frame by the same rotation; asking for an energy or separation leaves the coordinates asked about unchanged.'),
+    'C19': ('model table with positional access and a cut Step field; directory-aware model file system with four-session restart histories; generic SHARED-STATE pass',
+            'Also decided: the list of runs belongs to the object; every restart returns all sessions so far in order wherever the log file lives.'),
+    'C20': ('step() under a two-stage model integrator through the real grad_energy; central difference on grid-shaped coordinates; climbing selection with high end images',
+            'Also decided: the rate is evaluated at the coordinates the integrator asks about; the gradient keeps the leading axes of the coordinates; end images never climb.'),
+}
+for _pid, (_t, _x) in _ADD3.items():
+    if _pid in CLAIMED:
+        t0, x0, r0 = CLAIMED[_pid]
+        CLAIMED[_pid] = (t0 + '; ' + _t, (x0 + ' ' + _x).strip(), r0)
